@@ -163,10 +163,13 @@ package keeper
 //@ ensures [other_disputes_untouched] forall d int :: d != id ==> (has(dispute.Disputes, d) <==> old(has(dispute.Disputes, d))) && dispute.Disputes[d] == old(dispute.Disputes[d])
 //@ ensures [unknown_dispute_rejected] !old(has(dispute.Disputes, id)) ==> err != nil && nothing_written()
 
-// NextDisputeId walks the dispute store downwards (range iteration, not modelled): trusted; the id it returns is unused.
+// NextDisputeId reads the largest stored id through a descending iteration of the dispute store; the id it returns
+// is unused (ids are below 2^64 - 1: one dispute per id, each paid for).
 //@ func (k Keeper).NextDisputeId(ctx) (id)
-//@ trusted
+//@ requires [dispute_ids_below_max] forall d int :: has(dispute.Disputes, d) ==> 0 <= d && d < 18446744073709551615
 //@ ensures [id_is_unused] forall d int :: has(dispute.Disputes, d) ==> d < id
+//@ ensures [first_id_is_one] (forall d int :: !has(dispute.Disputes, d)) ==> id == 1
+//@ ensures [id_follows_the_largest_stored_one] id >= 1 && (id > 1 ==> has(dispute.Disputes, id - 1))
 //@ ensures [reads_only] nothing_written()
 
 //@ func (k Keeper).PayDisputeFee(ctx, proposer, fee, fromBond, hashId) (err)
